@@ -204,10 +204,10 @@ pub fn class(r: &R) -> String {
     match r {
         R::Simple(b) => format!("+{}", show_bytes(b)),
         R::Err(_) => "err".into(),
-        R::Int(i) => format!(":{}", i),
-        R::Bulk(b) => {
-            if b.len() <= 12 { format!("bulk\"{}\"", show_bytes(b)) } else { format!("bulk({}B)", b.len()) }
+        R::Int(i) => {
+            if i.unsigned_abs() <= 20 { format!(":{}", i) } else { "int".into() }
         }
+        R::Bulk(b) => format!("bulk[{}]", if b.len() <= 8 { b.len().to_string() } else { "9+".to_string() }),
         R::Nil => "nil".into(),
         R::NilArr => "arr[0]".into(),
         R::Arr(v) => format!("arr[{}]", v.len()),
